@@ -443,6 +443,8 @@ def convert_to_tensor(value, dtype=None, dtype_hint=None, name=None):
     if dtype is not None and as_dtype(dtype) != value.dtype:
       raise ValueError('Tensor conversion requested dtype %s for Tensor with dtype %s' %
                        (as_dtype(dtype).name, value.dtype.name))
+    if isinstance(value, Variable):
+      return Tensor(value.a, value.dtype)   # a snapshot of the current value
     return value
   a = _obj_from_nested(value)
   dt = as_dtype(dtype) if dtype is not None else _infer_dtype(a)
@@ -517,7 +519,10 @@ def constant(value, dtype=None, shape=None, name=None):
 
 
 def identity(x, name=None):
-  return _t(x)
+  x = _t(x)
+  if isinstance(x, Variable):
+    return Tensor(x.a, x.dtype)      # a snapshot of the current value, as in eager TensorFlow
+  return x
 
 
 def stop_gradient(x, name=None):
